@@ -6,7 +6,9 @@ RULE = ("every Deserialize type of both crates and the public element codecs ([G
         "isolated worker process (catch_unwind, tracking allocator recording the largest single request, RLIMIT_AS 4 GiB, "
         "exit status): every honest encoding with every length prefix set to {0, n-1, n+1, 2^32, 2^60, 2^64-1}, with and "
         "without enough extra bytes to feed one more element; truncation at every atom boundary and one byte before / "
-        "after; extension; single atoms replaced by random bytes; random strings; Vec<G> prefixes up to 2^64-1 on short "
+        "after; extension; single atoms replaced by random bytes; an atom overwritten with a copy of another atom of the same kind; every "
+        "array of one length resized consistently (each prefix k with exactly k elements, k = 0, n-1, n+1); one-byte counters at "
+        "the top of their range; random strings; Vec<G> prefixes up to 2^64-1 on short "
         "inputs and on inputs holding 1024 / 1025 (thorough: up to 2049) genuine elements, i.e. at and beyond the preallocation cap. Non-trivial = every mutated or random input; distinct = distinct (type, input digest).")
 TRUSTED = ["theorems C16_* about the decoder logic as modelled in Model/Wire.v",
            "modelled dependency behaviour (validated here, not proved): ArrayVec push/try_push on a full vector, bincode "
